@@ -28,7 +28,33 @@ pub fn check() -> Check {
 fn gen_damage(ctx: &GenCtx) -> Vec<Value> {
     let n = ctx.n(700, 20_000);
     let thorough = ctx.tier == Tier::Thorough;
-    (0..n)
+    let mut plans: Vec<Value> = Vec::new();
+    if ctx.first_round() {
+        let mut p = Planner::new(ctx.seed, "c03.enumerated", 0);
+        // SEIPDv1: decrypted streams that end on / next to a refill boundary of the decryptor (8 KiB first,
+        // then 8 KiB less the 22 held-back MDC octets), in both read modes
+        for k in 0..3usize {
+            for d in 0..24usize {
+                for streaming in [false, true] {
+                    let len = 8192 + k * 8170 - 22 - d;
+                    let cfg = json!({"source":"bytes","file_name":"","data_mode":"binary","partial":512,"compression":"none","signers":[],
+                        "enc":{"k":"v1","sym": *p.pick(&["aes128","aes256","cast5","twofish"])},"recipients":[],"passwords":[],"armor":false,"rng_key": p.u64()});
+                    plans.push(json!({"cfg": cfg, "payload": {"gen":"random","len": len, "key": p.u64()}, "password": false, "consumer": p.consumer(false).to_json(),
+                        "streaming": streaming, "lowlevel": d % 6 == 0, "pick": p.u64(), "trailing": null, "light": true}));
+                }
+            }
+        }
+        // SEIPDv2 with the largest legal chunk size (octet 16): every value of every header octet, every header bit
+        for aead in workload::AEADS {
+            for sym in ["aes128", "aes256"] {
+                let cfg = json!({"source":"bytes","file_name":"","data_mode":"binary","partial":512,"compression":"none","signers":[],
+                    "enc":{"k":"v2","sym": sym,"aead": aead,"chunk":16},"recipients":[],"passwords":[],"armor":false,"rng_key": p.u64()});
+                plans.push(json!({"cfg": cfg, "payload": {"gen":"random","len": 100, "key": p.u64()}, "password": false, "consumer": {"k":"read_to_end"},
+                    "streaming": false, "lowlevel": true, "pick": p.u64(), "trailing": null, "header_only": true}));
+            }
+        }
+    }
+    plans.extend((0..n)
         .map(|i| {
             let mut p = Planner::new(ctx.seed, "c03.damage", i as u64);
             let v2 = p.chance(3, 5);
@@ -63,8 +89,8 @@ fn gen_damage(ctx: &GenCtx) -> Vec<Value> {
                 "armor": false, "rng_key": p.u64()});
             json!({"cfg": cfg, "payload": {"gen":"random","len": len, "key": p.u64()}, "password": pw,
                    "consumer": p.consumer(false).to_json(), "streaming": !v2 && p.chance(1,4), "lowlevel": p.chance(1,4), "pick": p.u64(), "trailing": trailing})
-        })
-        .collect()
+        }));
+    plans
 }
 
 /// map an offset in the packet body to the offset in the stream (skipping partial length octets)
@@ -194,7 +220,7 @@ fn run_damage(plan: &Value, rec: &mut Rec) {
         return;
     };
     let v2 = jstr(&cfg["enc"], "k") == "v2";
-    let csz = 64usize << cfg["enc"]["chunk"].as_u64().unwrap_or(0);
+    let csz = 64usize << cfg["enc"]["chunk"].as_u64().unwrap_or(0).min(16);
     let sk = workload::session_key(&info);
     // a legal message whose plaintext continues after the literal with a packet that readers skip:
     // the stub decrypts the container, appends the packet and encrypts again under the same session key
@@ -277,7 +303,20 @@ fn run_damage(plan: &Value, rec: &mut Rec) {
     } else {
         let pick = ju64(plan, "pick") as usize;
         let nbits = (pk.end - pk.start) * 8;
-        if nbits <= 300 * 8 {
+        let light = jbool(plan, "light");
+        let header_only = jbool(plan, "header_only");
+        if header_only {
+            for b in 0..(42 * 8).min(nbits) {
+                muts.push(json!({"m":"flip","bit":b}));
+            }
+        } else if light {
+            for j in 0..64 {
+                muts.push(json!({"m":"flip","bit": (pick.wrapping_mul(j * 2 + 1).wrapping_add(j * 7919)) % nbits}));
+            }
+            for b in nbits - 24 * 8..nbits {
+                muts.push(json!({"m":"flip","bit":b}));
+            }
+        } else if nbits <= 300 * 8 {
             for b in 0..nbits {
                 muts.push(json!({"m":"flip","bit":b}));
             }
@@ -299,15 +338,22 @@ fn run_damage(plan: &Value, rec: &mut Rec) {
             }
         }
         let plen = pk.end - pk.start;
-        let step = (plen / 300).max(1);
-        for at in (0..plen).step_by(step) {
+        let cuts = if header_only { 0 } else if light { 30 } else { 300 };
+        let step = (plen / cuts.max(1)).max(1);
+        for at in (0..plen).step_by(step).take(cuts + 1) {
             muts.push(json!({"m":"trunc_raw","at":at}));
         }
-        let step = (pk.body.len() / 300).max(1);
-        for at in (0..pk.body.len()).step_by(step) {
+        let step = (pk.body.len() / cuts.max(1)).max(1);
+        for at in (0..pk.body.len()).step_by(step).take(cuts + 1) {
             muts.push(json!({"m":"trunc_reframed","at":at}));
         }
-        for n in [1usize, 15, 16, 17, csz, csz + 16, 22] {
+        if light {
+            // the last octets one by one: the end of the data and the MDC
+            for at in pk.body.len().saturating_sub(30)..pk.body.len() {
+                muts.push(json!({"m":"trunc_reframed","at":at}));
+            }
+        }
+        for n in [1usize, 15, 16, 17, csz.min(4096), csz.min(4096) + 16, 22].into_iter().filter(|_| !header_only) {
             for copy in [false, true] {
                 for before in [false, true] {
                     muts.push(json!({"m":"append","n":n,"copy":copy,"before_tag":before,"key":pick}));
@@ -375,6 +421,12 @@ fn run_damage(plan: &Value, rec: &mut Rec) {
         let mut vplan = plan.clone();
         vplan["only"] = m.clone();
         let site = format!("Message:{}:{kind}", if v2 { "seipdv2" } else if streaming { "seipdv1-streaming" } else { "seipdv1" });
+        if let Ok(path) = std::env::var("VERIF_DUMP") {
+            let _ = std::fs::write(&path, &damaged);
+            if let Some(PlainSessionKey::V3_4 { key, .. }) | Some(PlainSessionKey::V6 { key }) = &sk {
+                let _ = std::fs::write(format!("{path}.key"), hex::encode(key.as_ref()));
+            }
+        }
         match read(Arc::new(damaged.clone())) {
             Err(p) => rec.violation("panic", &norm_loc(&p.loc), format!("reading a damaged container panicked ({}): {}", m, p.msg), vplan.clone()),
             Ok(o) => {
